@@ -631,6 +631,43 @@ def judge_property(case, root, before, after, links):
     return bad, through
 
 
+def judge_syscalls(case, root, calls):
+    """P1 at the level of system calls: every creating/truncating open, unlink, rmdir, rename, mkdir …
+    must name (after resolving against the current directory) an allowed name directly in dirname(out).
+    Returns (violations [(key, text)], suspicious [text])."""
+    bad, sus = [], []
+    outdir = case["outdir"]
+    base = spec_basename(case["outarg"])
+    allowed = {base, spec_header(base)}
+    if case["opts"]["d"] in SPECIAL_MODES:
+        allowed.add(b"datasegments")
+    cwd = os.path.join(root, b"inv")
+    out_abs = os.path.realpath(os.path.join(root, outdir)) if outdir is not None else None
+    for kind, path, ok, raw in calls:
+        if kind == "chdir":
+            if ok:
+                cwd = os.path.realpath(os.path.join(cwd, path))
+            continue
+        if kind == "read":
+            continue
+        full = os.path.normpath(os.path.join(cwd, path))
+        dirn, name = os.path.dirname(full), os.path.basename(full)
+        fine = out_abs is not None and os.path.realpath(dirn) == out_abs
+        if kind == "write":
+            fine = fine and (name in allowed or bool(IMPL_RE.match(name)))
+            mutating = any(f in raw for f in ("O_CREAT", "O_TRUNC", "O_APPEND")) or raw.startswith("creat")
+            if not fine:
+                (bad if mutating else sus).append(
+                    (f"syscall-write-{name.hex()[:40]}", f"{raw[:160]} in cwd {os.path.relpath(cwd, root)!r}: not an own output of the run"))
+        elif kind in ("unlink", "rmdir"):
+            fine = fine and bool(IMPL_RE.match(name)) and bool(case["opts"]["c"])
+            if not fine:
+                bad.append((f"syscall-remove-{name.hex()[:40]}", f"{raw[:160]} in cwd {os.path.relpath(cwd, root)!r}: not a stale implementation file"))
+        else:
+            bad.append((f"syscall-{raw.split('(')[0]}", f"unexpected file-system call {raw[:160]}"))
+    return bad, [t for _, t in sus]
+
+
 def run_case(chk, exes, d, case, model_ans_for, broken, stats, variant):
     root = os.path.join(d, f"case{case['id']}").encode()
     os.makedirs(root)
@@ -646,12 +683,13 @@ def run_case(chk, exes, d, case, model_ans_for, broken, stats, variant):
         # ---- the property itself
         bad, through = judge_property(case, root, before, after, links)
         stats["write_through_symlink"] += len(through)
-        for key, text in bad:
+        bad2, sus = judge_syscalls(case, root, calls)
+        for key, text in bad + bad2:
             chk.violation(key, text, replay, True)
+        for t in sus:
+            broken.append({"kind": "suspicious-open", "msg": t, "command_line": replay["command_line"]})
         # ---- correspondence with the model
         revs0, stray0 = real_events(calls)
-        for s_ in stray0:
-            chk.violation(f"stray-syscall-{s_.split('(')[0]}", f"unexpected file-system call {s_[:200]}", replay, True)
         if ans is None:
             stats["runs"] += 1
             stats["kinds"][case["kind"]] = stats["kinds"].get(case["kind"], 0) + 1
